@@ -674,3 +674,54 @@ pub fn main() {
         },
     );
 }
+
+
+/// bytes -> case (coverage-guided fuzzing front end)
+pub fn decode(data: &[u8]) -> Case {
+    let lens = harness::lens::MID;
+    let g = |i: usize| data.get(i).copied().unwrap_or(0);
+    let n = lens[g(0) as usize % lens.len()];
+    let kind = match g(1) % 6 {
+        0..=2 => Kind::Tracked,
+        3 | 4 => Kind::U32,
+        _ => Kind::Zst,
+    };
+    let end = match g(2) % 6 {
+        0 => End::Drop,
+        1 => End::Drain(u32::from_le_bytes([g(3), g(4), g(3) ^ 0x5a, g(4) ^ 0xa5])),
+        2 => End::Fold,
+        3 => End::RFold,
+        4 => End::Count,
+        _ => End::Last,
+    };
+    let uses = |b: u8, a: u8| match b % 9 {
+        0 => Use::Drop,
+        1 => Use::Collect,
+        2 => Use::CollectRev,
+        3 => Use::Fold,
+        4 => Use::RFold,
+        5 => Use::Count,
+        6 => Use::Last,
+        7 => Use::NthThenDrop(a % 11),
+        _ => Use::NthBackThenDrop(a % 11),
+    };
+    let mut ops = vec![];
+    for ch in data.get(5..).unwrap_or(&[]).chunks(3) {
+        if ops.len() >= 80 {
+            break;
+        }
+        let h = |i: usize| ch.get(i).copied().unwrap_or(0);
+        ops.push(match h(0) % 12 {
+            0 | 1 => Op::Next,
+            2 | 3 => Op::NextBack,
+            4 => Op::Nth(h(1) % 11),
+            5 => Op::NthBack(h(1) % 11),
+            6 => Op::Len,
+            7 => Op::Write(u16::from_le_bytes([h(1), h(2)]), 20_000 + h(2) as u32),
+            8 | 9 => Op::Clone(uses(h(1), h(2))),
+            10 => Op::Debug,
+            _ => Op::DebugAlt,
+        });
+    }
+    Case { n, kind, ops, end }
+}
